@@ -457,6 +457,8 @@ func runC19Seq(ch *core.Chooser, env *Env, out *Outcome) *Outcome {
 		return out
 	}
 	defer sub.Cleanup()
+	filterlist.VerifSetHooks(filterlist.VerifHooks{Yield: core.MainHooks()})
+	defer filterlist.VerifSetHooks(filterlist.VerifHooks{})
 	var e *workload.Engines
 	if perr := safely(func() { e = workload.NewEngines(sub.Storage) }); perr != "" {
 		out.Invalid, out.InvalidReason = true, perr
@@ -570,9 +572,9 @@ func runC19Conc(ch *core.Chooser, env *Env, out *Outcome) *Outcome {
 		perr := safely(func() {
 			e := workload.NewEngines(ref.Storage)
 			for i := range p.pool {
-				before := *cnt
+				before := cnt()
 				truths = append(truths, computeTruth(e, &p.pool[i]))
-				seq = append(seq, *cnt-before)
+				seq = append(seq, cnt()-before)
 			}
 		})
 		restore()
@@ -688,6 +690,9 @@ func runC19Conc(ch *core.Chooser, env *Env, out *Outcome) *Outcome {
 	}
 	if res.SpecBlocked || res.SpecSkipped || res.UnhookedBlock {
 		out.Skipped = true
+		if res.Leaked {
+			out.Probes["tasks_left_parked_for_ever_race_build"]++
+		}
 		switch {
 		case res.UnhookedBlock:
 			out.Probes["released_task_blocked_on_a_lock_without_scheduling_point_run_abandoned"]++
